@@ -13,7 +13,18 @@ BASELINE_OFF = ('cd /repo && env -u ELECTRUMX_VERIF /venv/bin/python -m pytest -
 # id: (category, technique, level text, level note, design ref)
 _IDX_NOTE = ('Trusted: the fake plyvel stand-in (bound to real LevelDB by the conformance run), '
              'the reference indexer; only the default schedule is used here (schedules: C06/C07).')
+_SCHED_NOTE = ('Choice points only where the event loop\'s ready queue is empty (asyncio FIFO order is not a '
+               'choice); worker jobs atomic; protocol time-outs (30 s) never fire; scripted daemon; fake '
+               'plyvel stand-in.')
 CHECKS = {
+    'C09': ('exploration',
+            'stateless schedule exploration with iterative deviation bounding (CHESS style) of the real mempool tracker in the full system',
+            'Scenarios (synchronised mempool, new mempool, one daemon event: block with/without the index '
+            'catching up or flushing, eviction, arrival, reorg) with a scheduled daemon; the event, timers, '
+            'younger replies and hold/release of slow replies or jobs are placed at every quiescent point '
+            'of the refresh with at most 1 (quick) / 2 (thorough) deviations; invariants on the tracker at '
+            'every point, task liveness, and the C08 oracle after the following quiet refreshes.',
+            _SCHED_NOTE, '3/C09'),
     'C08': ('exploration',
             'exhaustive bounded enumeration of mempool state sequences on the real tracker in the full system',
             'A 7-transaction universe (child, grandchild, mixed inputs, generation-like input, several '
